@@ -85,6 +85,15 @@ func frontEndScenario() hx.Scenario {
 				}
 				out = append(out, fmt.Sprintf("%s:%v/%v", k, got == want, g2 == want))
 			}
+			// reserved platform layer on the real route: function name and version as the front end initialised them
+			for k, want := range map[string]string{"AWS_LAMBDA_FUNCTION_NAME": "test_function", "AWS_LAMBDA_FUNCTION_VERSION": "$LATEST"} {
+				if got := ob.rt[k]; got != want {
+					failf("r1-runtime-overlay", "runtime-env:wrong-value:reserved-platform:"+k, "runtime environment: %s=%q, the emulator was initialised with %q", k, got, want)
+				}
+				if got := ob.ext[k]; got != want {
+					failf("e1-extension-view", "agent-env:wrong-value:reserved-platform:"+k, "extension environment: %s=%q, the emulator was initialised with %q", k, got, want)
+				}
+			}
 			if ob.rt["AWS_LAMBDA_RUNTIME_API"] == "" || ob.rt["AWS_LAMBDA_RUNTIME_API"] != ob.ext["AWS_LAMBDA_RUNTIME_API"] {
 				failf("a1-same-api-address", "api-address-differs", "runtime sees Runtime API address %q, the extension %q", ob.rt["AWS_LAMBDA_RUNTIME_API"], ob.ext["AWS_LAMBDA_RUNTIME_API"])
 			}
